@@ -292,6 +292,6 @@ def units(tier):
         Unit("threshold_proportional-exhaustive", check, count=_exh_total, cases=_exh_cases, shards=(16, 32),
              space="every 3-node directed / 3- and 4-node symmetric matrix with cell values in {0,.25,.5} (thorough: {0,.25,.5,1}) x p in "
                    "{a/16, a=0..16} + {1/3,2/3,1/6,5/6,.1,.3,.7,.9}"),
-        Unit("threshold_proportional", check, strategy=prop_cases, examples=(3000, 40000), shards=(8, 16)),
-        Unit("other-utilities", check, strategy=other_cases, examples=(2000, 30000), shards=(8, 16)),
+        Unit("threshold_proportional", check, strategy=prop_cases, examples=(3000, 120000), shards=(8, 16)),
+        Unit("other-utilities", check, strategy=other_cases, examples=(2000, 90000), shards=(8, 16)),
     ]
